@@ -39,6 +39,10 @@ pub fn check(t: &Trace<'_>, out: &mut CaseOut) -> bool {
         if s.reader_read_bytes > 0 {
             out.count("reconnects_with_partial_inbound_packet", 1);
         }
+        if s.pending_server_packet_ids.len() >= 8 {
+            out.count("reconnects_with_full_inbound_qos2_table", 1);
+            nontrivial = true;
+        }
     }
     // configurations in which even an empty session cannot encode its CONNECT are excluded
     let first_connect = t.log.ops.iter().find(|o| o.kind == "connect");
